@@ -41,8 +41,13 @@ func volHarmless(seed uint64, w, j int) string {
 	return fmt.Sprintf(`x == "c%d-%d-%d"`, seed%1000, w, j)
 }
 
-func createWith(expr string, n uint64) error {
-	_, err := bexpr.CreateEvaluator(expr, bexpr.WithMaxExpressions(n))
+func createWith(expr string, n uint64) (err error) {
+	defer func() {
+		if r := recover(); r != nil {
+			err = fmt.Errorf("panic: %v", r)
+		}
+	}()
+	_, err = bexpr.CreateEvaluator(expr, bexpr.WithMaxExpressions(n))
 	return err
 }
 
